@@ -2831,6 +2831,16 @@ static int32 validateCertsInner(psPool_t *pool, psX509Cert_t *subjectCerts,
     ic = issuerCerts;
     while (ic != NULL)
     {
+        if (ic->parseStatus != PS_X509_PARSE_SUCCESS)
+        {
+            /* A CA file loaded with CERT_ALLOW_BUNDLE_PARTIAL_PARSE keeps a
+               placeholder for every certificate that could not be parsed
+               (unknown critical extension, unsupported algorithm, ...).
+               The fields decoded before the failure must not act as a
+               trust anchor. */
+            ic = ic->next;
+            continue;
+        }
         sc->authStatus = PS_FALSE;
         if ((rc = psX509AuthenticateCert(pool, sc, ic, foundIssuer, hwCtx,
                  poolUserPtr)) == PS_SUCCESS)
